@@ -973,7 +973,7 @@ def _check_lonf(case, diag=None):
 
 
 SUBCHECKS = [
-    HypSub("hpf", _hpf_case, _check_hpf, _classify_hpf, budget={"quick": 6000, "thorough": 120000}),
-    HypSub("hpf_line", _line_case, _check_line, _classify_line, budget={"quick": 1600, "thorough": 30000}),
-    HypSub("lonf", _lonf_case, _check_lonf, _classify_lonf, budget={"quick": 3200, "thorough": 80000}),
+    HypSub("hpf", _hpf_case, _check_hpf, _classify_hpf, budget={"quick": 9000, "thorough": 120000}),
+    HypSub("hpf_line", _line_case, _check_line, _classify_line, budget={"quick": 2400, "thorough": 30000}),
+    HypSub("lonf", _lonf_case, _check_lonf, _classify_lonf, budget={"quick": 4800, "thorough": 80000}),
 ]
